@@ -148,8 +148,25 @@ type c06Op struct {
 	Mut  string `json:"mut"`
 	MutN int    `json:"mut_n"`
 
+	// Follow: the client uses the secret/password in force when it issues the
+	// request (instead of the one of the initial configuration)
+	Follow bool `json:"follow"`
+
 	Target      string `json:"target"` // "", exp, nbf, ttlhi, ttllo, presign
 	TargetOffNs int64  `json:"target_off_ns"`
+}
+
+// c06Event is one administrative action during the run: a new pipeline
+// generation (Validator spec unchanged or edited) or a change of the basicAuth
+// credential store (etcd).
+type c06Event struct {
+	GapUs  int64   `json:"gap_us"`
+	Kind   string  `json:"kind"`   // gen | push
+	Edit   string  `json:"edit"`   // gen: same | sig-secret | jwt-secret | jwt-alg | ttl
+	N      int     `json:"n"`      // gen: which key / which value
+	Secret string  `json:"secret"` // gen: the new secret
+	Op     string  `json:"op"`     // push: remove | replace | add
+	User   c06User `json:"user"`   // push: the user concerned (new password for replace/add)
 }
 
 type c06Client struct {
@@ -159,6 +176,7 @@ type c06Client struct {
 type c06Scenario struct {
 	Cfg     c06Cfg      `json:"cfg"`
 	Clients []c06Client `json:"clients"`
+	Events  []c06Event  `json:"events"`
 }
 
 // ---- generator -----------------------------------------------------------
@@ -591,6 +609,12 @@ func c06Gen(rng *sim.Rand, tier string) interface{} {
 		}
 		sc.Clients = append(sc.Clients, cl)
 	}
+	for ci := range sc.Clients {
+		for oi := range sc.Clients[ci].Ops {
+			sc.Clients[ci].Ops[oi].Follow = rng.Bool(0.7)
+		}
+	}
+	c06GenEvents(rng, sc)
 	// keep runs cheap: tiny segments only with small bodies
 	maxBody := 0
 	for _, cl := range sc.Clients {
@@ -609,6 +633,176 @@ func c06Gen(rng *sim.Rand, tier string) interface{} {
 		sc.Cfg.Seg = 7
 	}
 	return sc
+}
+
+// c06ApplyEdit returns the Validator configuration of the next generation.
+func c06ApplyEdit(cfg c06Cfg, ev *c06Event) c06Cfg {
+	out := cfg
+	switch ev.Edit {
+	case "sig-secret":
+		if cfg.Sig != nil && len(cfg.Sig.Keys) > 0 && ev.Secret != "" {
+			sg := *cfg.Sig
+			sg.Keys = append([][2]string(nil), cfg.Sig.Keys...)
+			i := ev.N % len(sg.Keys)
+			if i < 0 {
+				i = 0
+			}
+			ns := ev.Secret
+			if ns == sg.Keys[i][1] {
+				ns += "R"
+			}
+			sg.Keys[i] = [2]string{sg.Keys[i][0], ns}
+			out.Sig = &sg
+		}
+	case "jwt-secret":
+		if cfg.JWT != nil {
+			if b, err := hex.DecodeString(ev.Secret); err == nil && len(b) > 0 && len(cfg.JWT.Secret) >= 2 && !strings.EqualFold(ev.Secret[:2], cfg.JWT.Secret[:2]) {
+				j := *cfg.JWT
+				j.Secret = ev.Secret
+				out.JWT = &j
+			}
+		}
+	case "jwt-alg":
+		if cfg.JWT != nil {
+			j := *cfg.JWT
+			n := ev.N
+			if n < 0 {
+				n = 0
+			}
+			j.Alg = c06Algs[n%3]
+			if j.Alg == cfg.JWT.Alg {
+				j.Alg = c06Algs[(n+1)%3]
+			}
+			out.JWT = &j
+		}
+	case "ttl":
+		if cfg.Sig != nil {
+			sg := *cfg.Sig
+			n := ev.N
+			if n < 0 {
+				n = 0
+			}
+			sg.TTLs = []int64{0, 1, 5, 60, 300, 900}[n%6]
+			out.Sig = &sg
+		}
+	}
+	return out
+}
+
+// c06ApplyPush returns the credential store after the change.
+func c06ApplyPush(users []c06User, ev *c06Event) []c06User {
+	var out []c06User
+	found := false
+	for _, u := range users {
+		if u.Name == ev.User.Name {
+			found = true
+			switch ev.Op {
+			case "remove":
+				continue
+			case "replace":
+				u.Pass, u.Store = ev.User.Pass, ev.User.Store
+			}
+		}
+		out = append(out, u)
+	}
+	if ev.Op == "add" && !found && ev.User.Name != "" && ev.User.Pass != "" {
+		out = append(out, ev.User)
+	}
+	return out
+}
+
+func c06GenEvents(rng *sim.Rand, sc *c06Scenario) {
+	cfg := &sc.Cfg
+	p := 0.4
+	if cfg.Basic != nil {
+		p = 0.65
+	}
+	if !rng.Bool(p) {
+		return
+	}
+	gap := func() int64 { return int64(rng.Pick(0, 1000, 100000, 500000, 1000000, 1000000, 2000000, 5000000)) }
+	genEv := func() c06Event {
+		ev := c06Event{GapUs: gap(), Kind: "gen", Edit: "same", N: rng.Intn(1000)}
+		var edits []string
+		if cfg.Sig != nil {
+			edits = append(edits, "sig-secret", "sig-secret", "ttl")
+		}
+		if cfg.JWT != nil {
+			edits = append(edits, "jwt-secret", "jwt-secret", "jwt-alg")
+		}
+		if len(edits) > 0 && rng.Bool(0.6) {
+			ev.Edit = edits[rng.Intn(len(edits))]
+		}
+		switch ev.Edit {
+		case "sig-secret":
+			ev.Secret = c06RandStr(rng, rng.Pick(8, 20, 40), c06Alnum+"+/=-_")
+		case "jwt-secret":
+			ev.Secret = c06RandHex(rng, rng.Pick(8, 16, 32))
+			if len(cfg.JWT.Secret) >= 2 && ev.Secret[:2] == cfg.JWT.Secret[:2] {
+				b, _ := hex.DecodeString(ev.Secret[:2])
+				ev.Secret = hex.EncodeToString([]byte{b[0] ^ 0xff}) + ev.Secret[2:]
+			}
+		}
+		return ev
+	}
+	added := 0
+	users := []c06User{}
+	if cfg.Basic != nil {
+		users = append(users, cfg.Basic.Users...)
+	}
+	pushEv := func() c06Event {
+		ev := c06Event{GapUs: gap(), Kind: "push"}
+		ops := []string{"add"}
+		if len(users) > 0 {
+			ops = append(ops, "replace", "replace", "remove")
+		}
+		ev.Op = ops[rng.Intn(len(ops))]
+		switch ev.Op {
+		case "add":
+			added++
+			ev.User = c06User{Name: fmt.Sprintf("newuser%d", added), Pass: c06RandStr(rng, rng.Range(3, 12), c06Alnum), Store: "sha"}
+		case "replace":
+			u := users[rng.Intn(len(users))]
+			ev.User = c06User{Name: u.Name, Pass: u.Pass + c06RandStr(rng, rng.Range(1, 4), c06Alnum), Store: "sha"}
+		case "remove":
+			ev.User = c06User{Name: users[rng.Intn(len(users))].Name}
+		}
+		users = c06ApplyPush(users, &ev)
+		return ev
+	}
+	ng := rng.Pick(0, 1, 1, 1, 2)
+	np := 0
+	if cfg.Basic != nil {
+		np = rng.Pick(0, 1, 1, 2, 3)
+	}
+	if ng+np == 0 {
+		ng = 1
+	}
+	// order: random, with the sequence "generation change, then store change" favoured
+	for ng+np > 0 {
+		switch {
+		case ng > 0 && (np == 0 || rng.Bool(0.6)):
+			sc.Events = append(sc.Events, genEv())
+			ng--
+		default:
+			sc.Events = append(sc.Events, pushEv())
+			np--
+		}
+	}
+	// some clients present the credentials of a user that is only added later
+	for ci := range sc.Clients {
+		for oi := range sc.Clients[ci].Ops {
+			op := &sc.Clients[ci].Ops[oi]
+			if !op.BasicOn || op.Mut != "" || op.BasicForm != "" || !rng.Bool(0.15) {
+				continue
+			}
+			for _, ev := range sc.Events {
+				if ev.Kind == "push" && ev.Op == "add" {
+					op.BasicUser, op.BasicPass = ev.User.Name, ev.User.Pass
+				}
+			}
+		}
+	}
 }
 
 // ---- building the wire request --------------------------------------------
@@ -650,6 +844,7 @@ type c06Info struct {
 	sentBody  []byte
 	wire      *c06Wire
 	issuedAt  time.Time
+	eff       c06Op // the request as really issued (secrets/password followed to the configuration in force)
 }
 
 func c06FlipB64(seg string, n int) string {
@@ -681,8 +876,40 @@ func c06FlipHex(s string, n int) string {
 
 // c06Issue builds the request of op as the issuer/client pair would: headers,
 // JWT, Basic credentials, then the signature over the finished request.
-func (c *c06Chain) issue(id string, op *c06Op) *c06Info {
-	cfg := &c.sc.Cfg
+func (c *c06Chain) issue(id string, op0 *c06Op) *c06Info {
+	base := &c.sc.Cfg
+	cfg := &c.cfgs[c.gen]
+	eff := *op0
+	op := &eff
+	if op.Follow {
+		if base.JWT != nil && cfg.JWT != nil && op.JWTAlg == base.JWT.Alg && op.JWTSecret == base.JWT.Secret {
+			op.JWTAlg, op.JWTSecret = cfg.JWT.Alg, cfg.JWT.Secret
+		}
+		if base.Sig != nil && cfg.Sig != nil {
+			for _, k := range base.Sig.Keys {
+				if k[0] == op.SigKey && k[1] == op.SigSecret {
+					for _, k2 := range cfg.Sig.Keys {
+						if k2[0] == op.SigKey {
+							op.SigSecret = k2[1]
+						}
+					}
+					break
+				}
+			}
+		}
+		if base.Basic != nil {
+			for _, u := range base.Basic.Users {
+				if u.Name == op.BasicUser && u.Pass == op.BasicPass {
+					for _, u2 := range c.users {
+						if u2.Name == op.BasicUser {
+							op.BasicPass = u2.Pass
+						}
+					}
+					break
+				}
+			}
+		}
+	}
 	now := time.Now()
 	issuer := now.Add(time.Duration(op.SkewMs) * time.Millisecond)
 	info := &c06Info{issuedAt: now}
@@ -840,6 +1067,7 @@ func (c *c06Chain) issue(id string, op *c06Op) *c06Info {
 	}
 	info.sentBody = w.body
 	info.wire = w
+	info.eff = eff
 	return info
 }
 
@@ -1020,7 +1248,7 @@ func (c *c06Chain) mutateSigned(w *c06Wire, op *c06Op, lit c06Literal, signed []
 				return cred
 			}
 			if op.Mut == "sig-keyid" {
-				for _, k := range c.sc.Cfg.Sig.Keys {
+				for _, k := range c.cfgs[c.gen].Sig.Keys {
 					// (the key id is not part of the string to sign: only a key with another secret changes the outcome)
 					if k[0] != parts[0] && k[1] != op.SigSecret {
 						parts[0] = k[0]
@@ -1136,7 +1364,7 @@ const c06S = int64(time.Second)
 
 func (c *c06Chain) judgeRules(w *c06Wire) (c06Judgement, bool) {
 	firstOnly := false // passes by the documented rule although the first value is bad
-	for _, ru := range c.sc.Cfg.Rules {
+	for _, ru := range c.jcfg.Rules {
 		var vals []string
 		for _, kv := range w.hdr {
 			if strings.EqualFold(kv[0], ru.Name) {
@@ -1175,7 +1403,7 @@ func (c *c06Chain) judgeRules(w *c06Wire) (c06Judgement, bool) {
 }
 
 func (c *c06Chain) judgeJWT(op *c06Op, info *c06Info, a, b int64) c06Judgement {
-	cfg := c.sc.Cfg.JWT
+	cfg := c.jcfg.JWT
 	switch {
 	case op.JWTMode == "":
 		return c06Judgement{c06Reject, "jwt-missing"}
@@ -1206,7 +1434,7 @@ var c06SigMuts = map[string]bool{"sig-method": true, "sig-path": true, "sig-quer
 var c06BodyMuts = map[string]bool{"sig-body-flip": true, "sig-body-append": true, "sig-body-trunc": true}
 
 func (c *c06Chain) judgeSig(op *c06Op, info *c06Info, a, b int64) c06Judgement {
-	cfg := c.sc.Cfg.Sig
+	cfg := c.jcfg.Sig
 	if op.SigMode == "" {
 		return c06Judgement{c06Reject, "sig-missing"}
 	}
@@ -1243,7 +1471,52 @@ func (c *c06Chain) judgeSig(op *c06Op, info *c06Info, a, b int64) c06Judgement {
 	return w.judge(a, b, "sig")
 }
 
-func (c *c06Chain) judgeBasic(op *c06Op, info *c06Info) c06Judgement {
+// candidateStores returns the states of the credential store that may have
+// been in force when the Validator of generation gen evaluated a request inside
+// [a,b]: a state counts from the instant its push began until the instant the
+// next push had settled. A generation that was closed before the request ended
+// may have stopped following the store at that instant.
+func (c *c06Chain) candidateStores(rec *c06Rec) [][]c06User {
+	lo, hi := rec.tA, rec.tEnd
+	if rec.gen >= 0 && rec.gen < len(c.closedAt) {
+		if t := c.closedAt[rec.gen]; !t.IsZero() && !t.After(hi) && t.Before(lo) {
+			lo = t
+		}
+	}
+	var out [][]c06User
+	for j, ep := range c.epochs {
+		if ep.start.After(hi) {
+			continue
+		}
+		if j+1 < len(c.epochs) && c.epochs[j+1].settled.Before(lo) {
+			continue
+		}
+		if j+1 == len(c.epochs) && c.pending != nil && c.pending.start.After(hi) {
+			// the push in progress began after the request ended
+		}
+		out = append(out, ep.users)
+	}
+	if c.pending != nil && !c.pending.start.After(hi) {
+		out = append(out, c.pending.users)
+	}
+	return out
+}
+
+func (c *c06Chain) judgeBasic(op *c06Op, info *c06Info, rec *c06Rec) c06Judgement {
+	stores := c.candidateStores(rec)
+	var first c06Judgement
+	for i, st := range stores {
+		j := c.judgeBasicIn(st, op, info)
+		if i == 0 {
+			first = j
+		} else if j.v != first.v {
+			return c06Judgement{c06Either, "basic-store-change-in-flight"}
+		}
+	}
+	return first
+}
+
+func (c *c06Chain) judgeBasicIn(users []c06User, op *c06Op, info *c06Info) c06Judgement {
 	if !op.BasicOn {
 		return c06Judgement{c06Reject, "basic-missing"}
 	}
@@ -1253,7 +1526,7 @@ func (c *c06Chain) judgeBasic(op *c06Op, info *c06Info) c06Judgement {
 	if info.mut == "basic-pass-byte" || info.mut == "basic-colon-suffix" {
 		return c06Judgement{c06Reject, info.mut}
 	}
-	for _, u := range c.sc.Cfg.Basic.Users {
+	for _, u := range users {
 		if u.Name == op.BasicUser {
 			if u.Pass == op.BasicPass {
 				return c06Judgement{c06Accept, ""}
@@ -1272,7 +1545,10 @@ func c06Short(b []byte) string {
 }
 
 func (c *c06Chain) describe(op *c06Op, info *c06Info) string {
-	cfg := &c.sc.Cfg
+	cfg := c.jcfg
+	if cfg == nil {
+		cfg = &c.sc.Cfg
+	}
 	var m []string
 	if len(cfg.Rules) > 0 {
 		m = append(m, fmt.Sprintf("headers%v", cfg.Rules))
@@ -1320,7 +1596,11 @@ func c06TagMethod(tags string) string {
 // evaluate compares what happened to one request with the reference verdict.
 func (c *c06Chain) evaluate(id string, op *c06Op, info *c06Info, rec *c06Rec, res *c06Resp) (verdict int, accepted bool) {
 	r := c.r
-	cfg := &c.sc.Cfg
+	if rec.gen < 0 || rec.gen >= len(c.cfgs) {
+		rec.gen = 0
+	}
+	cfg := &c.cfgs[rec.gen]
+	c.jcfg = cfg
 	desc := c.describe(op, info)
 	if rec.panicMsg != "" {
 		r.Violate("C06.panic", "%s: handler panicked: %s\n%s", id, rec.panicMsg, desc)
@@ -1354,7 +1634,7 @@ func (c *c06Chain) evaluate(id string, op *c06Op, info *c06Info, rec *c06Rec, re
 		js = append(js, c.judgeSig(op, info, a, b))
 	}
 	if cfg.Basic != nil {
-		js = append(js, c.judgeBasic(op, info))
+		js = append(js, c.judgeBasic(op, info, rec))
 	}
 	if len(js) == 0 {
 		return -1, false
@@ -1511,6 +1791,7 @@ func c06Exec(r *sim.Run, sci interface{}) {
 					}
 				}
 				res := c.do(&conn, ci, rec, info.wire, op.NewConn)
+				op = &info.eff
 				v, acc := c.evaluate(id, op, info, rec, res)
 				r.Eventf("%s: %s %s mut=%q target=%s%+d -> status=%d let-through=%v verdict=%d at=%v", id, info.wire.method, info.wire.path, info.mut, op.Target, op.TargetOffNs, res.status, acc, v, r.Now())
 				if v == c06Accept || v == c06Reject {
@@ -1528,6 +1809,43 @@ func c06Exec(r *sim.Run, sci interface{}) {
 			}
 		})
 	}
+	if len(sc.Events) > 0 {
+		r.Go("admin", func() {
+			gens, pushes := 0, 0
+			for ei := range sc.Events {
+				ev := &sc.Events[ei]
+				if r.Aborted() {
+					return
+				}
+				gap := ev.GapUs
+				if gap < 0 || gap > 60_000_000 {
+					gap = 0
+				}
+				r.Sleep(time.Duration(gap) * time.Microsecond)
+				switch ev.Kind {
+				case "gen":
+					if gens >= 3 {
+						continue
+					}
+					gens++
+					next := c06ApplyEdit(c.cfgs[c.gen], ev)
+					r.Probe("c06.gen.change." + ev.Edit)
+					if c.newGeneration(next) != nil {
+						return
+					}
+					sig = append(sig, "G"+ev.Edit)
+				case "push":
+					if cfg.Basic == nil || pushes >= 4 {
+						continue
+					}
+					pushes++
+					c.push(c06ApplyPush(c.users, ev))
+					r.Probe("c06.store.push." + ev.Op)
+					sig = append(sig, "P"+ev.Op)
+				}
+			}
+		})
+	}
 	r.WaitTasks()
 	if nAcc > 0 && nRej > 0 {
 		r.Nontrivial()
@@ -1538,9 +1856,61 @@ func c06Exec(r *sim.Run, sci interface{}) {
 
 func (c *c06Chain) probes(op *c06Op, info *c06Info, rec *c06Rec, v int, acc bool) {
 	r := c.r
-	cfg := &c.sc.Cfg
-	if v < 0 {
+	cfg := c.jcfg
+	if v < 0 || cfg == nil {
 		return
+	}
+	base := &c.sc.Cfg
+	if rec.gen > 0 {
+		r.Probe("c06.gen.request_handled_by_later_generation")
+	}
+	if cfg.Sig != nil && base.Sig != nil && op.SigMode != "" && v != c06Either {
+		for _, k := range base.Sig.Keys {
+			if k[0] != op.SigKey {
+				continue
+			}
+			for _, k2 := range cfg.Sig.Keys {
+				if k2[0] == op.SigKey && k2[1] != k[1] {
+					if acc && op.SigSecret == k2[1] {
+						r.Probe("c06.gen.sig_accepted_with_rotated_secret_same_key_id")
+					}
+					if !acc && op.SigSecret == k[1] {
+						r.Probe("c06.gen.sig_rejected_old_secret_after_rotation")
+					}
+				}
+			}
+		}
+	}
+	if cfg.JWT != nil && base.JWT != nil && op.JWTMode != "" && v != c06Either && (cfg.JWT.Secret != base.JWT.Secret || cfg.JWT.Alg != base.JWT.Alg) {
+		if acc {
+			r.Probe("c06.gen.jwt_accepted_under_changed_secret_or_alg")
+		} else if op.JWTSecret == base.JWT.Secret && op.JWTAlg == base.JWT.Alg {
+			r.Probe("c06.gen.jwt_rejected_old_secret_or_alg_after_change")
+		}
+	}
+	if cfg.Basic != nil && op.BasicOn && v != c06Either {
+		// which store state decided, and did a generation change precede that push?
+		st := c.candidateStores(rec)
+		if len(st) == 1 {
+			for j := len(c.epochs) - 1; j >= 1; j-- {
+				ep := c.epochs[j]
+				if !ep.settled.After(rec.tA) {
+					r.Probe("c06.store.request_after_settled_push")
+					if ep.afterGen >= 1 && rec.gen >= ep.afterGen {
+						r.Probe("c06.seq.generation_change_then_store_push_then_request")
+						if acc {
+							r.Probe("c06.seq.generation_change_then_store_push_then_request.accepted")
+						} else if info.mut == "" && op.BasicForm == "" {
+							r.Probe("c06.seq.generation_change_then_store_push_then_request.rejected_clean_credentials")
+						}
+					}
+					break
+				}
+			}
+		}
+	}
+	if v == c06Either && cfg.Basic != nil && op.BasicOn && len(c.candidateStores(rec)) > 1 {
+		r.Probe("c06.store.request_overlaps_push")
 	}
 	if acc {
 		r.Probe("c06.let_through")
